@@ -170,6 +170,10 @@ REVERTS: list[tuple[str, str, list[str]]] = [
     ("revert-F34", "fix: readers no longer align in the middle of a bit field unit", ["C03.R24", "C04.R13"]),
     ("revert-F35", "fix: aligned layout keeps bit fields of one unit together", ["C04.R12", "C06.R8"]),
     ("revert-F27", "fix: do not pad in front of an enum bit field that continues a storage unit", ["C02.R9", "C01.R16", "C04.R13"]),
+    ("revert-F37", "fix: fall back to the interpreted reader for arrays the compiler cannot pack", ["C03.R24"]),
+    ("revert-F38", "fix: unpack the block when an empty packed array slices the unpacked data", ["C03.R24"]),
+    ("revert-F39", "fix: unions holding a union with a structure member can be parsed again", ["C11.R19"]),
+    ("revert-F40", "fix: parse the bytes given to a structure whose only field is a char bit field", ["C09.R7", "C08.R6"]),
 ]
 
 # behaviour-preserving textual twins (id, file, old, new)
@@ -208,6 +212,8 @@ TWINS_REGEX: list[tuple[str, str, str, str, str]] = [
 
 # archived seeded changes the checks are known not to decide (value-level behaviour with no structural necessary condition); see DESIGN.md 9.5
 DOCUMENTED_MISSES = {
+    "seed-C08-r7-2": "count of an [EOF] array of fixed-size entries computed up front (a trailing partial entry dropped instead of raising): C08 sets "
+                     "to-end-of-stream arrays aside in its statement; C09.R1 reports the seek to the end of the stream the change introduces",
     "seed-C10-2": "integer-suffix ladder of the expression tokenizer: which literal spellings are accepted is value-level, not decided statically",
     "seed-C05-r4-3": "'unsigned char' re-aliased from char to uint8: the property speaks of the type char; the built-in table oracle deliberately accepts both "
                      "readings of 'unsigned char' (raw byte as the library has it, 8-bit unsigned as C has it), so no rule claims the spelling",
